@@ -30,7 +30,11 @@ func init() {
 		Assumptions: []string{"an error on an operation the model considers valid is not a violation (the statement constrains successes and failures, not which calls succeed); every (operation, path form) pair must have been observed to succeed at least once",
 			"sibling-type values (code for an enum-bound code, integer for positiveInt, id for a reference) may be normalised by the library: on success only the frame (everything but the target) and non-emptiness of the target are checked"},
 		Run:    runC18,
-		Checks: map[string]func(*core.Env, []json.RawMessage){"patch": replayC18, "seq": replayC18Seq, "codes": replayC18Codes, "aliasing": replayC18Aliasing, "refadd": func(env *core.Env, a []json.RawMessage) { c18RefAdd(env) }},
+		Checks: map[string]func(*core.Env, []json.RawMessage){"patch": replayC18, "seq": replayC18Seq, "codes": replayC18Codes, "aliasing": replayC18Aliasing, "refadd": func(env *core.Env, a []json.RawMessage) { c18RefAdd(env) }, "choice": func(env *core.Env, a []json.RawMessage) {
+			var tn string
+			json.Unmarshal(a[0], &tn)
+			c18ChoiceMembers(env, tn)
+		}},
 		Threshold: func(m *core.Merged) []string {
 			var r []string
 			for _, op := range []string{"add", "insert", "delete", "replace"} {
@@ -1055,6 +1059,148 @@ func c18RefAdd(env *core.Env) {
 	}
 }
 
+// c18ChoiceMembers: a choice element takes a value of every type of its choice list. For each singular choice
+// element at the top level of each resource type, and for Extension.value and Dosage.doseAndRate.dose/rate, add and
+// replace are run once per member type: on success the wrapper holds exactly that value; and since the member
+// types are alike as far as FHIRPatch is concerned, the operation succeeds for all of them or for none.
+func c18ChoiceMembers(env *core.Env, tn string) {
+	defer env.In("choice", tn)()
+	env.Case()
+	md := gen.ResourceTypeByName(tn)
+	if md == nil {
+		return
+	}
+	g := gen.NewResGen(core.NewRng(env.Seed, "c18-choice", tn), false)
+	type site struct {
+		build  func() (fhir.Resource, protoreflect.Message) // resource and the parent element in it
+		path   string
+		fd     protoreflect.FieldDescriptor
+	}
+	var sites []site
+	fs := md.Fields()
+	for i := 0; i < fs.Len(); i++ {
+		fd := fs.Get(i)
+		if fd.Message() != nil && gen.IsChoice(fd.Message()) && !fd.IsList() {
+			sites = append(sites, site{func() (fhir.Resource, protoreflect.Message) {
+				r := newMsg(md).Interface().(fhir.Resource)
+				return r, r.ProtoReflect()
+			}, tn, fd})
+		}
+	}
+	// an extension on the resource itself (DomainResource.extension) and its value[x]
+	if ef := fs.ByName("extension"); ef != nil {
+		extMD := ef.Message()
+		sites = append(sites, site{func() (fhir.Resource, protoreflect.Message) {
+			r := newMsg(md).Interface().(fhir.Resource)
+			e := newMsg(extMD)
+			u := newMsg(extMD.Fields().ByName("url").Message())
+			u.Set(u.Descriptor().Fields().ByName("value"), protoreflect.ValueOfString("http://u/x"))
+			e.Set(extMD.Fields().ByName("url"), protoreflect.ValueOfMessage(u))
+			r.ProtoReflect().Mutable(ef).List().Append(protoreflect.ValueOfMessage(e))
+			return r, e
+		}, tn + ".extension[0]", extMD.Fields().ByName("value")})
+	}
+	if tn == "MedicationRequest" {
+		df := fs.ByName("dosage_instruction")
+		dr := df.Message().Fields().ByName("dose_and_rate")
+		for _, nm := range []protoreflect.Name{"dose", "rate"} {
+			nm := nm
+			sites = append(sites, site{func() (fhir.Resource, protoreflect.Message) {
+				r := newMsg(md).Interface().(fhir.Resource)
+				d := newMsg(df.Message())
+				x := newMsg(dr.Message())
+				idm := newMsg(dr.Message().Fields().ByName("id").Message())
+				idm.Set(idm.Descriptor().Fields().ByName("value"), protoreflect.ValueOfString("dr1"))
+				x.Set(dr.Message().Fields().ByName("id"), protoreflect.ValueOfMessage(idm))
+				d.Mutable(dr).List().Append(protoreflect.ValueOfMessage(x))
+				r.ProtoReflect().Mutable(df).List().Append(protoreflect.ValueOfMessage(d))
+				return r, x
+			}, tn + ".dosageInstruction[0].doseAndRate[0]", dr.Message().Fields().ByName(nm)})
+		}
+	}
+	for _, st := range sites {
+		od := st.fd.Message().Oneofs().Get(0)
+		name := st.fd.JSONName()
+		type outcome struct {
+			member string
+			ok     bool
+			err    error
+		}
+		for _, op := range []string{"add", "replace"} {
+			var outs []outcome
+			for k := 0; k < od.Fields().Len(); k++ {
+				mf := od.Fields().Get(k)
+				if mf.Message() == nil {
+					continue
+				}
+				val := g.ValueOf(mf.Message(), 3).Interface()
+				r, parent := st.build()
+				if op == "replace" {
+					// start from another member of the list
+					of := od.Fields().Get((k + 1) % od.Fields().Len())
+					w := newMsg(st.fd.Message())
+					w.Set(of, protoreflect.ValueOfMessage(g.ValueOf(of.Message(), 3)))
+					parent.Set(st.fd, protoreflect.ValueOfMessage(w))
+				}
+				before := protoBytes(r)
+				valBefore := protoBytes(val)
+				var perr error
+				out := env.Guard("patch."+op+" choice "+st.path+"."+name, func() {
+					if op == "add" {
+						perr = patch.Add(r, st.path, name, val.(fhir.Base), &patch.Options{})
+					} else {
+						perr = patch.Replace(r, st.path+"."+model.IdentSrc(name), val.(fhir.Base))
+					}
+				})
+				env.Eval(1)
+				env.Cover("choice-member")
+				d := fmt.Sprintf("%s %s.%s with a %s", op, st.path, name, mf.Message().Name())
+				if out.Panicked || out.Dead {
+					if !out.Dead {
+						env.Violatef("C18/panic@"+out.Site+"/"+core.NormMsg(out.PanicMsg), "%s panicked: %s", d, out.PanicMsg)
+					}
+					continue
+				}
+				if protoBytes(val) != valBefore {
+					env.Violatef("C18/choice-member/value-modified", "%s: the supplied value was modified", d)
+				}
+				if perr != nil {
+					if protoBytes(r) != before {
+						env.Violatef("C18/choice-member/error-but-mutated", "%s returned %v but the resource changed", d, perr)
+					}
+					outs = append(outs, outcome{string(mf.Message().Name()), false, perr})
+					continue
+				}
+				outs = append(outs, outcome{string(mf.Message().Name()), true, nil})
+				// expectation: the same resource with the wrapper holding exactly val
+				wantR, wantParent := st.build()
+				w := newMsg(st.fd.Message())
+				w.Set(mf, protoreflect.ValueOfMessage(proto.Clone(val).ProtoReflect()))
+				wantParent.Set(st.fd, protoreflect.ValueOfMessage(w))
+				if !proto.Equal(r, wantR) {
+					env.Violatef("C18/choice-member/wrong-result/"+op, "%s returned nil; expected %s, observed %s", d, trunc(jsonOf(wantR), 240), trunc(jsonOf(r), 240))
+				}
+			}
+			okN := 0
+			for _, o := range outs {
+				if o.ok {
+					okN++
+				}
+			}
+			if okN > 0 && okN < len(outs) {
+				for _, o := range outs {
+					if !o.ok {
+						env.Violatef("C18/choice-member/one-member-type-refused/"+op+"/"+o.member, "%s %s.%s succeeds for %d of the %d types of the choice list but is refused for a %s: %v", op, st.path, name, okN, len(outs), o.member, o.err)
+					}
+				}
+			}
+			if okN > 0 {
+				env.Distinct(fmt.Sprintf("choice|%s|%s|%s", op, tn, name))
+			}
+		}
+	}
+}
+
 // c18Aliasing: the value handed to the operation, or a message shared by two elements, is the same Go object as
 // something already in the resource. Only the targeted element changes; the supplied value is not modified.
 func c18Aliasing(env *core.Env) {
@@ -1402,6 +1548,12 @@ func runC18(env *core.Env) {
 	n++
 	if env.Mine(n) {
 		c18RefAdd(env)
+	}
+	for _, md := range gen.ResourceTypes() {
+		n++
+		if env.Mine(n) {
+			c18ChoiceMembers(env, string(md.Name()))
+		}
 	}
 	types := gen.ResourceTypes()
 	per := env.Size(1, 8)
